@@ -607,6 +607,18 @@ func runC13(c *Ctx) {
 				if ok && op == token.EQL && loadOfField(x, eventsF) && isConstInt(y, 0) {
 					good = true
 				}
+				// the same test through a mask that covers both directions: Events&(read|write) == 0
+				if ok && op == token.EQL && isConstInt(y, 0) {
+					if bo, isBO := stripConv(x).(*ssa.BinOp); isBO && bo.Op == token.AND {
+						rf, ok1 := constantInt(p.Const("internal", "PollerReadEvent"))
+						wf, ok2 := constantInt(p.Const("internal", "PollerWriteEvent"))
+						for _, pr := range [][2]ssa.Value{{bo.X, bo.Y}, {bo.Y, bo.X}} {
+							if m, isC := constInt(pr[1]); isC && ok1 && ok2 && loadOfField(pr[0], eventsF) && m&rf == rf && m&wf == wf {
+								good = true
+							}
+						}
+					}
+				}
 			}
 			c.check(good, dereg, "drop slot", in.Pos(), "the slot is dropped only when no interest is registered", "Deregister drops the slot while an operation in the other direction may still be registered: the first completion of a read+write pair lets the owner be collected")
 		})
